@@ -6,7 +6,7 @@
 From Coq Require Import ZArith List Bool Lia ZifyBool.
 From RecordUpdate Require Import RecordSet.
 From Common Require Import Res.
-From Core Require Import World Hoare Model Step Reach ListLemmas Proofs_C03b Proofs_C02b Proofs_C10b Proofs_C02c Proofs_C03c.
+From Core Require Import World Hoare Model Step Reach ListLemmas Inv_Accepted Proofs_C03b Proofs_C02b Proofs_C10b Proofs_C02c Proofs_C03c.
 Import ListNotations RecordSetNotations.
 Open Scope Z_scope.
 
@@ -163,3 +163,24 @@ Proof.
 Qed.
 
 End P.
+
+(* ---- per attempt: only tracks some attempt for which was accepted are ever selected *)
+Section Q.
+Variable shuf : Z -> list tlt -> list tlt.
+Variable fuel : nat.
+
+Lemma accepted_only_selected_lemma mx kinds lens scr vol mut ops :
+  let w := run_world shuf fuel (init_world mx kinds lens scr vol mut) ops in
+  (forall t, In (EvStarted t) (events w) -> In (trk t, true) (attempts w))
+  /\ (forall c, current w = Some c -> In (trk c, true) (attempts w))
+  /\ (forall p, pending w = Some p -> In (trk p, true) (attempts w)).
+Proof.
+  cbv zeta.
+  assert (H : accepted_inv (run_world shuf fuel (init_world mx kinds lens scr vol mut) ops)).
+  { apply run_world_preserves.
+    - intro o. apply run_op_accepted_inv.
+    - apply get_time_position_accepted_inv.
+    - unfold accepted_inv. cbn. repeat split; intros; try discriminate; contradiction. }
+  destruct H as (Hp & Hc & He). repeat split; auto.
+Qed.
+End Q.
